@@ -43,9 +43,22 @@ struct PolOrdered {
 
 struct MEvent { int id; int key; int v; bool incl; };
 
-template <typename Pol>
+// how the prototype takes the payload, and whether the payload type can be copied (peekEvent needs copy assignment)
+struct MoveOnlyTracked : Tracked {
+	explicit MoveOnlyTracked(int id_ = 0) : Tracked(id_) {}
+	MoveOnlyTracked(MoveOnlyTracked &&) = default;
+	MoveOnlyTracked & operator=(MoveOnlyTracked &&) = default;
+	MoveOnlyTracked(const MoveOnlyTracked &) = delete;
+	MoveOnlyTracked & operator=(const MoveOnlyTracked &) = delete;
+};
+struct PMConstRef { typedef Tracked Val; typedef const Tracked & Param; static const bool peekable = true; static const char * name() { return "const Tracked&"; } };
+struct PMByValue { typedef Tracked Val; typedef Tracked Param; static const bool peekable = true; static const char * name() { return "Tracked by value"; } };
+struct PMMoveOnly { typedef MoveOnlyTracked Val; typedef const MoveOnlyTracked & Param; static const bool peekable = false; static const char * name() { return "move-only payload"; } };
+
+template <typename Pol, typename PM = PMConstRef>
 struct Harness {
-	using Q = eventpp::EventQueue<int, void(int, const Tracked &), Pol>;
+	using Val = typename PM::Val;
+	using Q = eventpp::EventQueue<int, void(int, typename PM::Param), Pol>;
 	using Handle = typename Q::Handle;
 	Cfg cfg; Ctx & ctx; Q * q = nullptr;
 
@@ -103,7 +116,7 @@ struct Harness {
 	void beginEvent(Frame & f) { f.inEvent = true; f.snap = listeners[keyIdx(f.batch[f.pos].key)]; f.li = 0; }
 
 	// ---- callbacks from the implementation
-	void onListener(int lid, int v, const Tracked & t) {
+	void onListener(int lid, int v, const Val & t) {
 		ctx.obs(3000 + lid); ctx.obs(t.id); ctx.obs(v);
 		if(ctx.wantLog()) ctx.log(fmt("  listener L%d gets event %d", lid, t.id));
 		if(frames.empty()) { report("listener-outside-call", fmt("listener L%d ran while no processing call was in progress", lid)); return; }
@@ -124,7 +137,7 @@ struct Harness {
 		++f.li;
 		if(cfg.nested) progActions(lid);
 	}
-	bool onPredicate(int v, const Tracked & t) {
+	bool onPredicate(int v, const Val & t) {
 		ctx.obs(4000 + t.id);
 		if(ctx.wantLog()) ctx.log(fmt("  predicate asked about event %d", t.id));
 		if(frames.empty()) { report("predicate-outside-call", "predicate ran while no processing call was in progress"); return false; }
@@ -158,7 +171,7 @@ struct Harness {
 	void doEnqueue(int key, bool incl) {
 		MEvent e{nextEventId++, key, incl ? key : 70 + key, incl};
 		if(ctx.wantLog()) ctx.log(fmt("enqueue%s(key %d) -> event %d", incl ? "" : "[excl]", key, e.id));
-		if(incl) q->enqueue(key, Tracked(e.id)); else q->enqueue(key, e.v, Tracked(e.id));
+		if(incl) q->enqueue(key, Val(e.id)); else q->enqueue(key, e.v, Val(e.id));
 		pending.push_back(e);
 		sortPending();
 	}
@@ -192,21 +205,23 @@ struct Harness {
 	void doProcessIf(int pk) {
 		if(ctx.wantLog()) ctx.log(fmt("processIf(%s)", predName(pk)));
 		startCall(CK_PROCESS_IF, pk);
-		bool r = q->processIf([this](int v, const Tracked & t) { return onPredicate(v, t); });
+		bool r = q->processIf([this](int v, const Val & t) { return onPredicate(v, t); });
 		endCall(r, "processIf");
 	}
 	void doProcessUntil(int pk) {
 		if(ctx.wantLog()) ctx.log(fmt("processUntil(%s)", predName(pk)));
 		startCall(CK_PROCESS_UNTIL, pk);
-		bool r = q->processUntil([this](int v, const Tracked & t) { return onPredicate(v, t); });
+		bool r = q->processUntil([this](int v, const Val & t) { return onPredicate(v, t); });
 		endCall(r, "processUntil");
 	}
 	void checkQueued(const typename Q::QueuedEvent & qe, const MEvent & m, const char * what) {
-		const Tracked & t = std::get<1>(qe.arguments);
+		const Val & t = std::get<1>(qe.arguments);
 		if(qe.event != m.key || std::get<0>(qe.arguments) != m.v || t.id != m.id || !t.intact())
 			report("handed-out-event-wrong", fmt("%s handed out (key %d, arg %d, payload %d%s), the model's front event is (key %d, arg %d, payload %d)", what, qe.event, std::get<0>(qe.arguments), t.id, t.intact() ? "" : " damaged", m.key, m.v, m.id));
 	}
-	void doPeek() {
+	void doPeek() { doPeekImpl(std::integral_constant<bool, PM::peekable>()); }
+	void doPeekImpl(std::false_type) {}
+	void doPeekImpl(std::true_type) {
 		typename Q::QueuedEvent qe;
 		bool r = q->peekEvent(&qe);
 		ctx.obs(r);
@@ -260,7 +275,7 @@ struct Harness {
 		int id = (int)lhandle.size();
 		lhandle.push_back(Handle()); lkey.push_back(key); lalive.push_back(1);
 		if(ctx.wantLog()) ctx.log(fmt("appendListener(key %d) -> L%d", key, id));
-		lhandle[id] = q->appendListener(key, [this, id](int v, const Tracked & t) { onListener(id, v, t); });
+		lhandle[id] = q->appendListener(key, [this, id](int v, const Val & t) { onListener(id, v, t); });
 		listeners[keyIdx(key)].push_back(id);
 		slot[adds % 3] = id; ++adds;
 	}
@@ -287,7 +302,7 @@ struct Harness {
 			case 4: if(selfListener < 0) ok = false; else doRemoveListener(selfListener); break;
 			case 5: if(slot[0] < 0) ok = false; else doRemoveListener(slot[0]); break;
 			case 6: doEmpty(true); break;
-			case 7: doPeek(); break;
+			case 7: if(!PM::peekable) ok = false; else doPeek(); break;
 			case 8: if(frames.size() >= 3) ok = false; else doProcess(); break;
 			case 9: if(frames.size() >= 3) ok = false; else doProcessOne(); break;
 			case 10: doClear(); break;
@@ -312,7 +327,7 @@ struct Harness {
 		op -= 4;
 		if(op < 4) { doProcessUntil(op); return; }
 		op -= 4;
-		if(op == 0) { doPeek(); return; }
+		if(op == 0) { if(!PM::peekable) b.skip(); doPeek(); return; }
 		if(op == 1) { doTake(false); return; }
 		if(op == 2) { doTake(true); return; }
 		if(op == 3) { doClear(); return; }
@@ -378,19 +393,19 @@ struct Harness {
 	}
 };
 
-template <typename Pol>
+template <typename Pol, typename PM = PMConstRef>
 static void addUnit(const std::string & name, int minTier, Cfg cfg, int dq, int dt, int bq, int bt) {
 	Unit u; u.name = name; u.minTier = minTier;
 	u.run = [=](Ctx & ctx, UnitReport & rep, int tier) {
-		Harness<Pol> h(ctx, cfg);
+		Harness<Pol, PM> h(ctx, cfg);
 		BfsOptions o; o.maxDepth = tier ? dt : dq; o.innerBudget = tier ? bt : bq;
 		Bfs b(ctx, o);
 		b.run([&](Bfs & bb) { h.body(bb); }, [&]() { h.after(); });
 		fillBfsReport(rep, b.res);
-		rep.str["config"] = fmt("EventQueue K=%d keys=%d nested=%d nestedConsume=%d ordered=%d cmp=%d budget=%d depth=%d", cfg.K, cfg.nKeys, (int)cfg.nested, (int)cfg.nestedConsume, (int)cfg.ordered, cfg.cmpKind, o.innerBudget, o.maxDepth);
+		rep.str["config"] = std::string("payload ") + PM::name() + fmt("; EventQueue K=%d keys=%d nested=%d nestedConsume=%d ordered=%d cmp=%d budget=%d depth=%d", cfg.K, cfg.nKeys, (int)cfg.nested, (int)cfg.nestedConsume, (int)cfg.ordered, cfg.cmpKind, o.innerBudget, o.maxDepth);
 	};
 	u.replay = [=](Ctx & ctx, const std::vector<int> & seq) {
-		Harness<Pol> h(ctx, cfg);
+		Harness<Pol, PM> h(ctx, cfg);
 		replayBody(ctx, seq, [&](Bfs & bb) { h.body(bb); }, [&]() { h.after(); });
 	};
 	units().push_back(u);
@@ -423,6 +438,12 @@ static struct Register {
 #if SEL(5, 2)
 		addUnit<PolPlain<ST> >("C05/nested/single", 0, nest, 4, 5, 1, 2);
 		addUnit<PolPlain<ST> >("C05/nested-consume/single", 0, nestC, 4, 4, 1, 2);
+#endif
+#if SEL(5, 3)
+		addUnit<PolPlain<ST>, PMByValue>("C05/flat/by-value-payload", 0, flat, 5, 30, 0, 0);
+		addUnit<PolPlain<ST>, PMMoveOnly>("C05/flat/move-only-payload", 0, flat, 5, 30, 0, 0);
+		addUnit<PolPlain<MT>, PMMoveOnly>("C05/nested/move-only-payload", 0, nestC, 4, 4, 1, 2);
+		addUnit<PolPlain<VThreading>, PMByValue>("C05/nested/by-value-payload", 0, nest, 4, 4, 1, 2);
 #endif
 #if SEL(13, 0)
 		{ Cfg c = flat; c.ordered = true; c.nKeys = 3; c.cmpKind = 0;
